@@ -135,6 +135,7 @@ func runC12(c *Ctx, r *Rec) {
 	}
 	r.count("parse methods with (token, ok) results", nD1)
 	r.floor("D1-diagnostic-has-token", 3)
+	checkDiagnosticBuilders(c, r, "D1-diagnostic-cannot-fail")
 
 	// ---- D2 unchecked assertions
 	nA := 0
@@ -897,4 +898,138 @@ func pathParentDefer(body ast.Node, n ast.Node) (ast.Node, bool) {
 		}
 	}
 	return nil, false
+}
+
+// checkDiagnosticBuilders: the functions that put a syntax diagnostic together (the methods
+// named FormatToken, the functions that call one, and the unexported functions those call) see
+// arbitrary tokens: a slice or index expression with a constant bound on a slice or string whose
+// length no enclosing condition establishes replaces the diagnostic by a Go runtime error.
+func checkDiagnosticBuilders(c *Ctx, r *Rec, rule string) {
+	info := c.info("cdcn")
+	set := map[*ast.FuncDecl]bool{}
+	all := c.allFuncDecls("cdcn")
+	for _, fd := range all {
+		if fd.Body == nil {
+			continue
+		}
+		if fd.Name.Name == "FormatToken" && fd.Recv != nil {
+			set[fd] = true
+			continue
+		}
+		inspectNoLit(fd.Body, func(x ast.Node) bool {
+			if _, mname, _, ok := methodCall(x); ok && mname == "FormatToken" {
+				set[fd] = true
+			}
+			return true
+		})
+	}
+	for depth := 0; depth < 2; depth++ {
+		for fd := range set {
+			inspectNoLit(fd.Body, func(x ast.Node) bool {
+				if call, ok := x.(*ast.CallExpr); ok {
+					if cf := calleeOf(info, call); cf != nil && !cf.Exported() {
+						if hd := c.declOf(cf); hd != nil && hd.Body != nil && c.infoFor(hd) == info {
+							set[hd] = true
+						}
+					}
+				}
+				return true
+			})
+		}
+	}
+	var fds []*ast.FuncDecl
+	for fd := range set {
+		fds = append(fds, fd)
+	}
+	sort.Slice(fds, func(i, j int) bool { return fds[i].Pos() < fds[j].Pos() })
+	for _, fd := range fds {
+		g := newFG(info, fd.Body)
+		var viol []string
+		n := 0
+		constOf := func(e ast.Expr) (int64, bool) {
+			if e == nil {
+				return 0, false
+			}
+			if tv, ok := info.Types[e]; ok && tv.Value != nil {
+				return constantInt(tv)
+			}
+			return 0, false
+		}
+		check := func(node ast.Node, operand ast.Expr, k int64, what string) {
+			t := info.TypeOf(operand)
+			if t == nil {
+				return
+			}
+			switch u := t.Underlying().(type) {
+			case *types.Slice:
+			case *types.Basic:
+				if u.Info()&types.IsString == 0 {
+					return
+				}
+			default:
+				return
+			}
+			o := identObj(info, operand)
+			if o == nil {
+				return
+			}
+			n++
+			pt, ok := g.locate(node)
+			if !ok {
+				return
+			}
+			guarded := false
+			for _, ec := range g.edgeConds(pt) {
+				ast.Inspect(ec.cond, func(y ast.Node) bool {
+					if call, ok := y.(*ast.CallExpr); ok && isBuiltinCall(info, call, "len") && len(call.Args) == 1 && isObj(info, call.Args[0], o) {
+						guarded = true
+					}
+					return true
+				})
+			}
+			// a literal defined in place has the length one can read off
+			if init := initOf(info, fd, operand.(*ast.Ident)); init != nil {
+				if _, isLit := ast.Unparen(init).(*ast.CompositeLit); isLit {
+					guarded = true
+				}
+				if tv, ok := info.Types[init]; ok && tv.Value != nil {
+					guarded = true
+				}
+			}
+			if !guarded {
+				viol = append(viol, fmt.Sprintf("%s at %s takes %s of %s, whose length no enclosing condition on len(%s) establishes: for a shorter one the diagnostic is replaced by a Go runtime error (or padded from spare capacity)", what, c.pos(node.Pos()), fmt.Sprint(k), o.Name(), o.Name()))
+			}
+		}
+		inspectNoLit(fd.Body, func(x ast.Node) bool {
+			switch e := x.(type) {
+			case *ast.SliceExpr:
+				if _, isId := ast.Unparen(e.X).(*ast.Ident); !isId {
+					return true
+				}
+				if k, ok := constOf(e.High); ok && k > 0 {
+					check(e, ast.Unparen(e.X), k, "the slice expression "+exprStr(e))
+				} else if k, ok := constOf(e.Low); ok && k > 0 {
+					check(e, ast.Unparen(e.X), k, "the slice expression "+exprStr(e))
+				}
+			case *ast.IndexExpr:
+				if _, isId := ast.Unparen(e.X).(*ast.Ident); !isId {
+					return true
+				}
+				if k, ok := constOf(e.Index); ok && k >= 0 {
+					check(e, ast.Unparen(e.X), k, "the index expression "+exprStr(e))
+				}
+			}
+			return true
+		})
+		construct := c.fdName(fd)
+		switch {
+		case len(viol) > 0:
+			r.fail(rule, construct, c.pos(fd.Pos()), strings.Join(dedup(viol), " | "))
+		default:
+			r.ok(rule, construct, c.pos(fd.Pos()), fmt.Sprintf("%d constant-bound slice or index expressions, each under a condition on the operand's length", n))
+		}
+	}
+	if len(fds) == 0 {
+		r.skip(rule, "cdcn/diagnostic-builders", "", "no method named FormatToken and no caller of one")
+	}
 }
